@@ -21,6 +21,7 @@
 //!   c16.rt.synresp <eidx> <object>                                  → `ok`   (oracle only)
 //!   c16.rt.err i<status> a<k> (s<name> s<value>)… s<body>           → `ok`   (oracle only)
 mod endpoints;
+mod glue;
 mod registry;
 mod seeds;
 mod synthetic;
@@ -603,6 +604,42 @@ pub fn run(req: &str) -> Outcome {
             let rt = get!(synthetic::run_resp(ep.name, o));
             Outcome { imp: "ok".into(), t3: rt.t3 }
         }
+        "c16.glue.req" => {
+            let gid: usize = get!(t.next().and_then(|x| x.parse().ok()));
+            let vs = get!(t.versions());
+            let kind: usize = get!(t.next().and_then(|x| x.parse().ok()));
+            let token = get!(t.string());
+            let mut rest = t.t[t.i..].iter().copied();
+            let v = get!(glue::GVal::parse(&mut rest));
+            if rest.next().is_some() {
+                return Outcome::bad();
+            }
+            let g = get!(glue::glue_eps().get(gid));
+            let sat = get!(sat_of(kind, &token));
+            get!(glue::run_req(g, &v, &vs, sat))
+        }
+        "c16.glue.resp" => {
+            let gid: usize = get!(t.next().and_then(|x| x.parse().ok()));
+            let mut rest = t.t[t.i..].iter().copied();
+            let v = get!(glue::GVal::parse(&mut rest));
+            if rest.next().is_some() {
+                return Outcome::bad();
+            }
+            let g = get!(glue::glue_eps().get(gid));
+            get!(glue::run_resp(g, &v))
+        }
+        "c16.glue.in" => {
+            let gid: usize = get!(t.next().and_then(|x| x.parse().ok()));
+            let g = get!(glue::glue_eps().get(gid));
+            let mut rest = t.t[t.i..].iter().copied();
+            get!(glue::run_in(g, &mut rest))
+        }
+        "c16.glue.rin" => {
+            let gid: usize = get!(t.next().and_then(|x| x.parse().ok()));
+            let g = get!(glue::glue_eps().get(gid));
+            let mut rest = t.t[t.i..].iter().copied();
+            get!(glue::run_rin(g, &mut rest))
+        }
         "c16.rt.err" => {
             let seed = RespSeed { status: get!(t.int()) as u16, headers: get!(t.pairs()), body: get!(t.bytes()) };
             run_error_rt(&seed)
@@ -632,7 +669,7 @@ fn extract() -> String {
     let mut s = String::new();
     s.push_str("-- GENERATED by `h-c16 c16 extract` from the running implementation (every endpoint's\n");
     s.push_str("-- `METADATA` constant read through the public accessors). Do not edit.\n");
-    s.push_str("import RumaModel.Model.Endpoint\nnamespace Ruma.Generated.C16\nopen Ruma Ruma.Endpoint Ruma.Spec.Endpoint\n\n");
+    s.push_str("import RumaModel.Model.EndpointGlue\nnamespace Ruma.Generated.C16\nopen Ruma Ruma.Endpoint Ruma.Spec.Endpoint Ruma.Glue\n\n");
     for (i, h) in w.hists.iter().enumerate() {
         let un: Vec<String> = h.unstable.iter().map(|p| lean_str(p)).collect();
         let st: Vec<String> = h.stable.iter().map(|(v, p)| format!("({v}, {})", lean_str(p))).collect();
@@ -672,8 +709,24 @@ fn extract() -> String {
             if i + 1 == w.eps.len() { "" } else { "," }
         ));
     }
-    s.push_str("]\n\nend Ruma.Generated.C16\n");
+    s.push_str("]\n");
+    s.push_str(&glue::extract(
+        &|name| w.ep_hist[w.eps.iter().position(|e| e.name == name).expect("glue endpoint is registered")],
+        &|m| lean_scheme(m.authentication),
+    ));
+    s.push_str("\nend Ruma.Generated.C16\n");
     s
+}
+
+fn lean_scheme(a: AuthScheme) -> &'static str {
+    match a {
+        AuthScheme::None => ".none",
+        AuthScheme::AccessToken => ".accessToken",
+        AuthScheme::AccessTokenOptional => ".accessTokenOptional",
+        AuthScheme::AppserviceToken => ".appserviceToken",
+        AuthScheme::AppserviceTokenOptional => ".appserviceTokenOptional",
+        AuthScheme::ServerSignatures => ".serverSignatures",
+    }
 }
 
 // ---------------------------------------------------------------- generators
